@@ -747,6 +747,11 @@ def _strip_volatile(case):
     return c
 
 
+def _ext_or_bio(obs):
+    q = obs["post"]
+    return obs["act"] in EXT or (q["bio"] and q["metab"] == "none" and not q["effect"])
+
+
 def walk(v, book, start, svec, acts, depth, table, rng, expand_if=None, max_states=None):
     """Level-synchronous walk from one start model: every obligation of every vector reached at distance < depth."""
     route = START_VEC[svec][4]
@@ -818,7 +823,9 @@ def main(tier: str, seed: int) -> int:
             ("mox2", "oral1", MFL5, 3, None, 36),
             # bioavailability / metabolite / effect compartment: the requests themselves and every request after them
             ("pheno_real", "iv1", ALL_ACTS, 2, lambda o: o["act"] in EXT, None),
-            ("mox2", "oral1", ALL_ACTS, 2, lambda o: o["act"] in EXT, None),
+            # ... and on the oral model everything that can be requested from the bioavailability states
+            # (depot + lag + F at once is reached as B:1, L:1: dose attributes must survive every later request)
+            ("mox2", "oral1", ALL_ACTS, 3, _ext_or_bio, None),
         ]
     else:
         table = tlc_graph("FeaturesFull.cfg", ALL_ACTS, v, timeout=3000)
